@@ -13,7 +13,7 @@ for P in $IDS; do
   for d in $V/seeded/$P-*; do
     name=$(basename $d); chk=$P
     case $name in C20-r3m2|C20-r2m2) chk=C07;; esac
-    git -C $W checkout -q -- .
+    git -C $W reset -q --hard; git -C $W clean -qfd
     if ! git -C $W apply $d/patch.diff 2>/dev/null && ! git -C $W apply -3 $d/patch.diff 2>/dev/null; then echo "$name APPLY-FAILED"; continue; fi   # -3: hook commits made after the patch was written may have moved its context
     (cd $V && VERIF_REPO=$W ./check $chk > $V/out/regress-$name.log 2>&1); rc=$?
     echo "$name check=$chk exit=$rc $(grep -m1 'shape=' $V/out/regress-$name.log | sed 's/^ *//' | cut -c1-120)"
